@@ -22,7 +22,7 @@ PID = "C36"
 
 
 def execute(ex: Execution, backend: str, idle_timeout: float, n_waits: int, stack_kind: str = "in_process",
-            lifecycle_row: str = "n/a") -> tuple[Any, list[Any]]:
+            lifecycle_row: str = "n/a", yielding: bool = False) -> tuple[Any, list[Any]]:
     sh.clear_graveyard()
     sh.reset_ids()
     ih.reset()
@@ -42,6 +42,8 @@ def execute(ex: Execution, backend: str, idle_timeout: float, n_waits: int, stac
         c.close()
         dbos_standin.DBOS._reset()
     store = sh.make_store(backend)
+    if yielding:
+        sh.make_yielding(store)  # handler reads really suspend (network-backed store)
     with EngineExec(ex, cfg) as e:
         if stack_kind == "dbos":
             stack: Any = ih.DbosStack(store, lifecycle_db, idle_timeout)
@@ -90,6 +92,9 @@ def execute(ex: Execution, backend: str, idle_timeout: float, n_waits: int, stac
                 e.add_script([Action(f"send {ih.WAIT_TYPES[i].__name__}#{100 + i}", send)])
             desc = f"[{stack_kind}/{backend}/row={lifecycle_row}] idle_timeout={idle_timeout} waits={n_waits} t={e.loop.vt} schedule {ex.labels}"
             sent_since_idle = any(s[1] >= state["idle_at"] and s[3] >= state["idle_marks"] for s in sends) if state["idle_at"] is not None else False
+            store_op_in_flight = any(g.label == "store.query" for g in h.pending_gates())
+            if store_op_in_flight:
+                return  # a (yielding) store read is in flight: the operation that issued it has not finished yet
             if hd.status == "running" and state["idle_at"] is not None and not sent_since_idle and not any(not s[2].done() for s in sends):
                 idle_for = e.loop.vt - state["idle_at"]
                 if idle_for > idle_timeout + 1e-9 and not released:
@@ -159,6 +164,8 @@ def programs(tier: str) -> list[Program]:
             for n in (1, 2):
                 ps.append(Program(f"dbos/lifecycle_row={row}/idle_timeout={it}/waits={n}", {"stack": "dbos", "row": row, "idle_timeout": it, "waits": n},
                                   (lambda ex, it=it, n=n, row=row: execute(ex, "memory", it, n, "dbos", row)), max_dev=None if n == 1 else (3 if q else 5)))
+    ps.append(Program("in_process/memory/yielding_store/idle_timeout=5.0/waits=1", {"backend": "memory", "yielding": True, "idle_timeout": 5.0, "waits": 1},
+                      (lambda ex: execute(ex, "memory", 5.0, 1, "in_process", "n/a", True)), max_dev=(3 if q else 5)))
     for backend in ("memory", "sqlite"):
         for it in ((0.5, 60.0) if q else (0.5, 5.0, 60.0)):
             for n in (1, 2):
